@@ -114,11 +114,168 @@ def evaluate(case):
     return ev
 
 
+# ------------------------------------------------------------------ string checks on a grid of small arguments
+
+
+def strat_strings():
+    """One str / object / string column over a pool with the empty string, multi-byte characters and nulls; 1-2 string
+    checks whose arguments are enumerated from small grids (every None / 0 / 1 combination of str_length bounds, empty
+    prefixes, anchored and unanchored patterns): the main generator reaches these boundary arguments too rarely."""
+    from hypothesis import strategies as st
+
+    pool = ["", "a", "b", "ab", "ba", "abc", "aab", "\u00e9", "a\u00e9", "\u00e9\u00e9b", " ", "A"]
+    bound = st.sampled_from([None, 0, 0, 1, 2, 3])
+
+    @st.composite
+    def check(draw):
+        k = draw(st.sampled_from(["str_length", "str_length", "str_startswith", "str_endswith", "str_matches", "str_contains",
+                                  "equal_to", "isin", "notin"]))
+        if k == "str_length":
+            lo, hi = draw(bound), draw(bound)
+            if lo is None and hi is None:
+                hi = 0
+            if lo is not None and hi is not None and lo > hi:
+                lo, hi = hi, lo
+            cs = {"kind": k, "args": {"min_value": lo, "max_value": hi}}
+        elif k in ("str_startswith", "str_endswith"):
+            cs = {"kind": k, "args": {"string": draw(st.sampled_from(["", "a", "ab", "b", "\u00e9", " "]))}}
+        elif k in ("str_matches", "str_contains"):
+            cs = {"kind": k, "args": {"pattern": draw(st.sampled_from(gen.PATTERNS + ["", "^$", "a|b", "\u00e9", ".*"]))}}
+        elif k == "equal_to":
+            cs = {"kind": k, "args": {"value": draw(st.sampled_from(pool))}}
+        else:
+            vals = draw(st.lists(st.sampled_from(pool), min_size=0, max_size=3, unique=True))
+            cs = {"kind": k, "args": {"allowed_values" if k == "isin" else "forbidden_values": vals}}
+        r = draw(st.integers(0, 5))
+        if r == 0 and k.startswith("str_"):
+            cs["ignore_na"] = False
+        return cs
+
+    @st.composite
+    def s(draw):
+        n = draw(st.integers(0, 5))
+        phys = draw(st.sampled_from(["object", "object", "string"]))
+        cells = draw(st.lists(st.one_of(st.sampled_from(pool), st.sampled_from(pool), st.sampled_from(pool), st.none()),
+                              min_size=n, max_size=n))
+        series = draw(st.integers(0, 3)) == 0
+        col = {"name": "s", "dtype": draw(st.sampled_from(["str", "str", "string" if phys == "string" else "object"])),
+               "nullable": True, "unique": False, "required": True,
+               "checks": draw(st.lists(check(), min_size=1, max_size=2))}
+        spec = {"kind": "series" if series else "dataframe", "columns": [col], "index": None, "strict": False, "ordered": False}
+        return {"spec": spec, "table": {"columns": [{"name": "s", "phys": phys, "cells": cells}], "index": None}}
+    return s()
+
+
+# ----------------------------------------------------------- history: validate, edit in place, validate again
+
+
+def _pd_scalar(phys, v):
+    import pandas as pd
+
+    if v is None:
+        return {"float64": float("nan"), "float32": float("nan"), "datetime64[ns]": pd.NaT, "Int64": pd.NA, "string": pd.NA}.get(phys)
+    if phys == "datetime64[ns]":
+        return pd.Timestamp(sp.day(v))
+    return v
+
+
+def strat_revalidate():
+    from hypothesis import strategies as st
+    import copy
+
+    @st.composite
+    def s(draw):
+        base = draw(gen.case_strategy(allow_dup_labels=False))
+        case = copy.deepcopy(gen.repair(base))
+        table = case["table"]
+        n = sp.table_nrows(table)
+        edits = []
+        if n and table["columns"]:
+            for _ in range(draw(st.integers(1, 2))):
+                j = draw(st.integers(0, len(table["columns"]) - 1))
+                i = draw(st.integers(0, n - 1))
+                phys = table["columns"][j]["phys"]
+                vals = st.sampled_from(gen._pool(phys))
+                if gen._nullable_phys(phys):
+                    vals = st.one_of(vals, vals, st.none())
+                edits.append({"col": j, "row": i, "value": draw(vals)})
+        case["edits"] = edits
+        case["first"] = draw(st.sampled_from(["copy", "copy", "inplace"]))
+        case["lazy"] = draw(st.booleans())
+        return case
+    return s()
+
+
+def eval_revalidate(case):
+    """The verdict on an object depends on its current content only: an accepted object that is edited in place is
+    judged again on what it now holds (a result remembered per object / per attached schema would be stale)."""
+    import copy
+
+    ev = Eval()
+    spec, table = case["spec"], case["table"]
+    table2 = copy.deepcopy(table)
+    for e in case["edits"]:
+        table2["columns"][e["col"]]["cells"][e["row"]] = e["value"]
+    try:
+        ref1 = refmodel.ref_validate(spec, table)
+        ref2 = refmodel.ref_validate(spec, table2)
+    except refmodel.Undefined as e:
+        ev.skipped = "undefined:" + str(e).split(" on ")[0][:40]
+        return ev
+    if not ref1.accept:
+        ev.skipped = "repair did not reach a conforming table"
+        return ev
+    if ref1.filtered_columns:
+        ev.skipped = "strict='filter' drops columns (edits address the input's column positions)"
+        return ev
+    schema, data = build(case)
+    series = spec.get("kind") == "series"
+    ev.labels += ["kind=" + spec.get("kind", "dataframe"), "first=" + case["first"], "ref2=" + ("accept" if ref2.accept else "reject")]
+    ev.nontrivial = bool(case["edits"]) and not ref2.accept
+    lazy = bool(case.get("lazy"))
+    o1 = fp.outcome(lambda: schema.validate(data, lazy=lazy, inplace=case["first"] == "inplace"))
+    if o1["kind"] != "ok":
+        ev.labels.append("first-validation-not-ok")  # the frames family scores this
+        return ev
+    obj = o1["value"]
+    try:
+        for e in case["edits"]:
+            v = _pd_scalar(table["columns"][e["col"]]["phys"], e["value"])
+            if series:
+                obj.iloc[e["row"]] = v
+            else:
+                obj.iloc[e["row"], e["col"]] = v
+        want, got = fp.snapshot(sp.pandas_series(table2) if series else sp.pandas_frame(table2)), fp.snapshot(obj)
+        if (got["cells"], got.get("dtypes", got.get("dtype"))) != (want["cells"], want.get("dtypes", want.get("dtype"))):
+            raise ValueError("edit changed the physical type")
+    except Exception as e:
+        ev.skipped = "in-place edit not expressible: " + type(e).__name__
+        return ev
+    for lz in (lazy, not lazy):
+        o2 = fp.outcome(lambda: schema.validate(obj, lazy=lz))
+        mode = "lazy" if lz else "eager"
+        if o2["kind"] in ("internal", "usage"):
+            ev.labels.append("internal-outcome")
+            continue
+        if (o2["kind"] == "ok") != ref2.accept:
+            if ref2.accept:
+                ev.add(f"revalidation-rejects-conforming-edit:{mode}:" + "+".join(o2.get("reasons", [])),
+                       {"edits": case["edits"], "msg": str(o2.get("exc"))[:300]})
+            else:
+                ev.add(f"revalidation-accepts-violating-edit:{mode}:" + "+".join(ref2.reasons),
+                       {"edits": case["edits"], "first": case["first"], "reference_errors": [x.key() for x in ref2.errors][:4]})
+    return ev
+
+
 FAMILIES = [
     Family("frames", evaluate, strategy=lambda: gen.repaired_case(), n_quick=700, n_thorough=6000, shards_quick=4,
            shards_thorough=16,
            required_labels=["ref=accept", "ref=reject", "kind=series", "has:index", "has:regex", "has:frame:strict",
                             "has:frame:ordered", "has:unique", "has:check"]),
+    Family("strings", evaluate, strategy=strat_strings, n_quick=300, n_thorough=3000, shards_quick=2, shards_thorough=8,
+           required_labels=["ref=accept", "ref=reject", "has:check"]),
+    Family("revalidate", eval_revalidate, strategy=strat_revalidate, n_quick=400, n_thorough=3000, shards_quick=3,
+           shards_thorough=12, required_labels=["ref2=reject", "ref2=accept", "first=inplace", "kind=series"]),
 ]
 
 
